@@ -29,43 +29,43 @@ PLANNED = {
 CLAIMS = {
  'C13': {
   'engine': 'histsim',
-  'technique': 'deterministic simulation of a long-lived compiling process: seeded operation histories (parse, compile, reuse of rules and program objects, failing compiles, clock jumps) in forks of a pristine zygote under a chosen PYTHONHASHSEED, refinement against pristine processes under the same and under another hash seed; simulated clock',
+  'technique': 'deterministic simulation of a long-lived compiling process: seeded operation histories (parse, compile, reuse of rules and program objects, failing compiles, clock jumps, directory and environment changes) in simulated processes (module-universe reset, confirmed by forks of a pristine zygote) under a chosen PYTHONHASHSEED, refinement against pristine processes under the same and under another hash seed; simulated clock',
   'text': 'Seeded search over operation histories x hash seeds x programs (repository corpus and generated programs with functors, all recursion modes, imports, typed dialects, experimental syntax); a clean batch is evidence over the sampled histories and seeds, not a proof. Exploration is the right level: the property quantifies over all histories and all hash seeds.',
-  'note': 'Trusted: fork() gives a pristine copy of the zygote interpreter (a sample of references also comes from a second, separately started interpreter); only the exception type is compared for failing requests; the C++ parser mode is not exercised.',
-  'design_ref': 'DESIGN.md section 5 (C13)',
+  'note': 'Trusted: fork() of a never-used zygote is a fresh process; the cheap process model (repository modules dropped and re-imported) is cross-validated against it once per batch and every disagreement is confirmed with real processes before it counts; only the exception type is compared for failing requests; the C++ parser mode is not exercised.',
+  'design_ref': 'DESIGN.md sections 5 (C13) and 11.2',
  },
  'C17': {
   'engine': 'groundsim',
-  'technique': 'deterministic simulation with fault injection: seeded histories of runs (three real entry paths), fact-version switches, tampering and crash/interrupt/disk-full/lock faults against one persistent SQLite file; per-statement table reads/writes observed through the SQLite authorizer; oracle = reference evaluator plus ordering and atomicity invariants',
+  'technique': 'deterministic simulation with fault injection: seeded histories of runs (script path, logica.py main incl. several predicates at once, run_in_terminal Run/RunMany), fact-version switches, tampering, crash/interrupt/disk-full/lock faults and retained failed connections against one persistent SQLite file; per-statement table reads/writes observed through the SQLite authorizer; oracle = reference evaluator plus ordering and atomicity invariants',
   'text': 'Seeded search over programs with grounded intermediates x histories of runs x fault positions (every abort position enumerated for a subset of histories); a clean batch is evidence over the sampled histories, not a proof. Exploration fits: the property quantifies over all programs and all run sequences.',
   'note': 'Trusted: lsim/ref.py, SQLite (incl. its statement rollback), the statement-boundary crash model (no torn pages: Python sqlite3 exposes no VFS hook). After an aborted run only atomicity is demanded; fault-free twins of every history run with no relaxation.',
-  'design_ref': 'DESIGN.md section 5 (C17)',
+  'design_ref': 'DESIGN.md sections 5 (C17) and 11',
  },
  'C20': {
   'engine': 'aggsim',
   'technique': 'deterministic simulation of arrival order: the real aggregate UDF objects are stepped by the simulator in enumerated/seeded permutations with interleaved groups; end to end, the simulator chooses the physical row order, index and UNION ALL order seen by SQLite; oracle = the documented definition of each built-in',
   'text': 'Seeded search over row multisets and arrival orders (all permutations for small groups) for the aggregates, and over small argument domains for the scalar built-ins; evidence over the sampled workloads, not a proof. Only the aggregate half of the property has a schedule to simulate; the scalar built-ins are pure functions checked as payload of the same runs.',
   'note': 'Trusted: the ~120-line table of defined meanings in lsim/aggsim.py (cells whose meaning the documentation does not fix for SQLite are excluded and listed in the evidence), SQLite, json.',
-  'design_ref': 'DESIGN.md section 5 (C20)',
+  'design_ref': 'DESIGN.md sections 5 (C20) and 11',
  },
  'C03': {
   'engine': 'recsim',
   'technique': 'deterministic simulation with fault injection: generated recursive programs run through the real compiler, Concertina and SQLite under seeded execution schedules (stale generation tables, aborted/failed then re-run, several predicates at once); oracle = Jacobi T^(depth+1) and least fixpoint from an independent reference evaluator',
   'text': 'Seeded search over recursive programs x depths (both sides of the 20/21 switch to iterative execution) x execution schedules and fault positions; a clean batch is evidence over the sampled cases, not a proof. For depth <= 20 the result is a single SQL statement and the check is seeded differential testing against the reference model with no fault dimension; the simulation proper (stateful multi-step execution, persistent leftovers, engine faults) applies to iterative plans.',
   'note': 'Trusted: lsim/ref.py (bag-semantics evaluator written from docs/learn/logica.md), SQLite, the statement-boundary crash model. Vertically unfolded mutual recursion is checked by containment only, as the property states.',
-  'design_ref': 'DESIGN.md section 5 (C03)',
+  'design_ref': 'DESIGN.md sections 5 (C03) and 11',
  },
  'C14': {
   'engine': 'concsim',
-  'technique': 'deterministic simulation: real Concertina/ExecuteLogicaProgram under a simulated engine, file system and clock; seeded plans with enumerated stop-signal instants and engine-error positions; constraint oracle plus a cyclic-queue reference model',
-  'text': 'Seeded search over generated workflow plans and compiled programs with every stop-signal instant and engine-error position of each small plan enumerated; a clean batch is evidence over the sampled plans and schedules, not a proof. Exploration is the right level: the property quantifies over all DAGs/placements/subsets, which can only be sampled.',
-  'note': 'Trusted: the 30-line cyclic-queue model of an iteration group, the well-formedness rules of generated plans (stated in evidence.assumptions), SQLite itself in layer B. The engine, file system and clock are simulated in layer A.',
-  'design_ref': 'DESIGN.md section 5 (C14)',
+  'technique': 'deterministic simulation: (A) the real Concertina under a simulated engine, stop-signal file system, clock and display, every stop-signal instant and engine-error position of each plan enumerated; (P) the real ExecuteLogicaProgram/RenamePredicate plan assembly on abstract executions with a simulated sql_runner; (B) compiled programs on real SQLite behind a fault-injecting, authorizer-observing connection proxy; constraint oracle plus a cyclic-queue reference model',
+  'text': 'Seeded search over generated workflow plans, assembled plans and compiled programs, with every stop-signal instant and engine-error position of each small plan enumerated; a clean batch is evidence over the sampled plans and schedules, not a proof. Exploration is the right level: the property quantifies over all DAGs/placements/subsets, which can only be sampled.',
+  'note': 'Trusted: the 30-line cyclic-queue model of an iteration group, the well-formedness rules of generated plans (stated in evidence.assumptions), lsim/ref.py and SQLite in layer B. The engine, file system, clock and IPython display are simulated in layer A; display_mode=colab (graphviz) is not run.',
+  'design_ref': 'DESIGN.md sections 5 (C14) and 11',
  },
 }
 
 ENGINES = {
- 'concsim': 'discrete-event simulation of the workflow executor (fake engine/fs/clock) + compiled plans on fault-injecting SQLite',
+ 'concsim': 'discrete-event simulation of the workflow executor (fake engine/fs/clock/display), plan assembly on abstract executions, compiled plans on fault-injecting SQLite',
  'groundsim': 'history simulation of runs against one persistent SQLite file with crash/abort points and stale state',
  'recsim': 'simulation of iterative recursion plans (executor + mutable generation tables) against a Jacobi/least-fixpoint reference',
  'histsim': 'simulation of a long-lived compiling process: operation histories x hash seeds x clock, refinement against pristine processes',
